@@ -78,6 +78,7 @@ type vlEvent struct {
 	Res   string                    `json:"res,omitempty"`
 	Shr   bool                      `json:"shrunk,omitempty"` // gc ret: the pass made a data file smaller
 	Cm    map[string]map[string]int `json:"cm,omitempty"`
+	Anom  string                    `json:"anom,omitempty"`
 	seq   int64
 }
 
@@ -111,15 +112,20 @@ func (r *vlRound) opts() []Option {
 }
 
 // content reads every channel over everything and maps samples back to (t, id).
-func (r *vlRound) content() (map[string]map[string]int, error) {
+// content reads every channel in full. Bytes that were never written to the channel and
+// samples returned twice do not abort the round: they are recorded as value -1 (which no
+// spec state matches) and described in anom, so that the trace validation and the
+// comparison with the content after reopen classify the round.
+func (r *vlRound) content() (map[string]map[string]int, string, error) {
 	out := map[string]map[string]int{}
+	anom := ""
 	r.wmu.Lock()
 	defer r.wmu.Unlock()
 	for _, ch := range []string{"I", "D", "V"} {
 		out[ch] = map[string]int{}
 		fr, err := r.db.Read(context.Background(), telem.TimeRangeMax, vsKeys[ch])
 		if err != nil {
-			return nil, fmt.Errorf("read %s: %w", ch, err)
+			return nil, "", fmt.Errorf("read %s: %w", ch, err)
 		}
 		rev := map[string][2]int{}
 		for t, id := range r.written[ch] {
@@ -138,16 +144,24 @@ func (r *vlRound) content() (map[string]map[string]int, error) {
 			for smp := range s.Samples() {
 				v, ok := rev[string(smp)]
 				if !ok {
-					return nil, fmt.Errorf("channel %s returned bytes %x that were never written to it", ch, smp)
+					if anom == "" {
+						anom = fmt.Sprintf("channel %s returned bytes %x that were never written to it", ch, smp)
+					}
+					out[ch]["0"] = -1
+					continue
 				}
 				if _, dup := out[ch][strconv.Itoa(v[0])]; dup {
-					return nil, fmt.Errorf("channel %s returned the sample at abstract time %d twice", ch, v[0])
+					if anom == "" {
+						anom = fmt.Sprintf("channel %s returned the sample at abstract time %d twice", ch, v[0])
+					}
+					out[ch][strconv.Itoa(v[0])] = -1
+					continue
 				}
 				out[ch][strconv.Itoa(v[0])] = v[1]
 			}
 		}
 	}
-	return out, nil
+	return out, anom, nil
 }
 
 func (r *vlRound) write(w *Writer, chans []string, times []int, id int) (string, error) {
@@ -367,11 +381,9 @@ func vlRun(seed int64, round int, hang *atomic.Bool) (evs []vlEvent, fatal strin
 			default:
 			}
 			r.log(vlEvent{Ev: "call", P: "r", Op: "read"})
-			if _, err := r.content(); err != nil && r.garbage.Load() == nil {
-				// read errors while writers/deletes run are tolerated; never-written bytes are not
-				if len(err.Error()) > 8 && err.Error()[:7] == "channel" {
-					r.garbage.Store(err.Error())
-				}
+			// read errors while writers/deletes run are tolerated; anomalies are observations
+			if _, anom, _ := r.content(); anom != "" && r.garbage.Load() == nil {
+				r.garbage.Store(anom)
 			}
 			r.log(vlEvent{Ev: "ret", P: "r", Res: "ok"})
 			time.Sleep(30 * time.Microsecond)
@@ -409,11 +421,11 @@ func vlRun(seed int64, round int, hang *atomic.Bool) (evs []vlEvent, fatal strin
 		// speaks about the content readable AFTERWARDS, so this is an observation
 		obs = "OBS: concurrent read anomaly: " + g.(string)
 	}
-	cm, err := r.content()
+	cm, anom, err := r.content()
 	if err != nil {
 		return nil, "final read: " + err.Error()
 	}
-	r.log(vlEvent{Ev: "final", Cm: cm})
+	r.log(vlEvent{Ev: "final", Cm: cm, Anom: anom})
 	if err := db.Close(); err != nil {
 		return nil, "close: " + err.Error()
 	}
@@ -422,11 +434,11 @@ func vlRun(seed int64, round int, hang *atomic.Bool) (evs []vlEvent, fatal strin
 		return nil, "reopen: " + err.Error()
 	}
 	r.db = db2
-	cm2, err := r.content()
+	cm2, anom2, err := r.content()
 	if err != nil {
 		return nil, "final read after reopen: " + err.Error()
 	}
-	r.log(vlEvent{Ev: "final", Cm: cm2})
+	r.log(vlEvent{Ev: "final", Cm: cm2, Anom: anom2})
 	_ = db2.Close()
 	if r.tainted.Load() {
 		return nil, "" // known delete defect shape: the round is not evidence either way
